@@ -8,7 +8,7 @@ use std::io::Write;
 pub fn case_json(prop: &str, verif_seed: u64, idx: u64) -> Value {
     let info = props::prop(prop).expect("property");
     match info.engine {
-        Engine::Sql => serde_json::to_value(run::gen_sql_case(prop, verif_seed, idx)).unwrap(),
+        Engine::Sql | Engine::Crash => serde_json::to_value(run::gen_sql_case(prop, verif_seed, idx)).unwrap(),
         _ => json!({}),
     }
 }
@@ -16,7 +16,7 @@ pub fn case_json(prop: &str, verif_seed: u64, idx: u64) -> Value {
 pub fn sample_json(prop: &str, verif_seed: u64, idx: u64) -> Value {
     let info = props::prop(prop).expect("property");
     match info.engine {
-        Engine::Sql => run::sample_of(&run::gen_sql_case(prop, verif_seed, idx)),
+        Engine::Sql | Engine::Crash => run::sample_of(&run::gen_sql_case(prop, verif_seed, idx)),
         _ => json!({}),
     }
 }
@@ -57,6 +57,10 @@ pub fn run_one(prop: &str, verif_seed: u64, idx: u64) -> RunResult {
             let case = run::gen_sql_case(prop, verif_seed, idx);
             run::run_sql_case(&case, idx)
         }
+        Engine::Crash => {
+            let case = run::gen_sql_case(prop, verif_seed, idx);
+            crate::crashsim::run_case(&case, idx)
+        }
         _ => unimplemented!(),
     }
 }
@@ -85,6 +89,9 @@ pub fn replay_raw(path: &str, mut out: std::fs::File) -> i32 {
     let r = if engine.starts_with("E1") {
         let case: SqlReplay = serde_json::from_value(v).expect("sql replay");
         run::run_sql_case(&case, 0)
+    } else if engine.starts_with("E2") {
+        let case: SqlReplay = serde_json::from_value(v).expect("crash replay");
+        crate::crashsim::run_case(&case, 0)
     } else {
         eprintln!("unknown engine in replay");
         return 2;
